@@ -200,7 +200,16 @@ func rdConcretise(j int, rc rdCase) rdConc {
 			cc.Fields = append(cc.Fields, scalarF("F", true, rc.FDoc), k)
 		}
 	}
-	rdComment(&b, "", cc.Doc)
+	if j%4 == 1 && len(cc.Doc) >= 2 {
+		// every fourth documented type carries its doc as ONE general comment spanning several lines
+		b.WriteString("/*\n")
+		for _, l := range cc.Doc {
+			b.WriteString(l.Text + "\n")
+		}
+		b.WriteString("*/\n")
+	} else {
+		rdComment(&b, "", cc.Doc)
+	}
 	switch rc.Kind {
 	case "scalar", "unexportedScalar":
 		fmt.Fprintf(&b, "type %s int\n", cc.Name)
@@ -406,6 +415,12 @@ func rdModule(from, to, perPkg int, concs []rdConc, obsOf []map[string]any) erro
 		}
 		probes.WriteString("\t}\n}\n")
 		files[pkg+"/doc.go"] = "// Package " + pkg + " holds generated cases.\n//\n// +gengo:runtimedoc\npackage " + pkg + "\n"
+		if (p/perPkg)%3 == 1 {
+			// an earlier run's output for a type that has been renamed since: the package does not type-check as it stands,
+			// the generator has to repair its own output
+			files[pkg+"/zz_generated.runtimedoc.go"] = "/*\nPackage " + pkg + " GENERATED BY gengo:runtimedoc \nDON'T EDIT THIS FILE\n*/\npackage " + pkg +
+				"\n\nfunc (v *GoneType) RuntimeDoc(names ...string) ([]string, bool) {\n\treturn []string{}, true\n}\n"
+		}
 		files[pkg+"/types.go"] = src.String()
 		files[pkg+"/probes.go"] = probes.String()
 		fmt.Fprintf(&imports, "\t%s \"example.com/rd/%s\"\n", pkg, pkg)
